@@ -144,13 +144,15 @@ def do_replay(path, quiet=False):
     c = symx.Concrete(rec["inputs"])
     status, vios = c.run(ob.fn, wall_s=30.0)
     keys = [v.key for v in vios]
+    req = [(v.key, v.label, v.detail) for v in vios if v.kind != "optional"]
     if rec.get("kind") == "budget":
         # suspected non-termination: reproduced iff the real code does not return within the wall limit
         hit = status == "timeout"
     else:
         hit = rec["key"] in keys
     if not quiet:
-        print(json.dumps(dict(status=status, reproduced=hit, keys=keys, missing_inputs=c.missing)))
+        print(json.dumps(dict(status=status, reproduced=hit, keys=keys, missing_inputs=c.missing,
+                              required_failures=[list(map(str, r)) for r in req[:5]])))
     return hit, status, keys
 
 
@@ -317,11 +319,23 @@ def run_check(pid, tier, seed, only, jobs, write_evidence=True):
             ok, info = replay_subprocess(path)
             if ok:
                 return (n, key, v, path, None)
+            if isinstance(info, dict) and info.get("required_failures") and v.get("kind") != "budget":
+                # the real code fails on these inputs, but not in the way the symbolic run saw it (typically: the symbolic run
+                # stopped at an exception that plain floats do not raise): report what the real code does
+                k2, l2, d2 = info["required_failures"][0]
+                v2 = dict(v, key=k2, label=l2, detail=d2)
+                path2 = replay_file(pid, n, tier, v2)
+                ok2, _ = replay_subprocess(path2)
+                if ok2:
+                    return (n, k2, v2, path2, None)
         return (n, key, None, None, info)
     from concurrent.futures import ThreadPoolExecutor
     with ThreadPoolExecutor(max_workers=max(1, min(jobs, 12))) as tp:
         results = list(tp.map(try_replay, todo))
     reproduced_keys = set(key for n, key, v, path, info in results if v is not None)
+    for (n0, key0, _), (n, key, v, path, info) in zip(todo, results):
+        if v is not None and key != key0:
+            reproduced_keys.add(key0)
     for n, key, v, path, info in results:
         ob = obs[n]
         if key in reported:
